@@ -12,7 +12,10 @@ TARGETS = ["ahbicht.content_evaluation.rc_evaluators:RcEvaluator.evaluate_condit
            "ahbicht.content_evaluation.fc_evaluators:FcEvaluator.evaluate_format_constraints",
            "ahbicht.expressions.hints_provider:HintsProvider.get_hints",
            "ahbicht.condition_node_builder:ConditionNodeBuilder._build_unevaluated_format_constraint_nodes",
-           "ahbicht.condition_node_builder:ConditionNodeBuilder._build_requirement_constraint_nodes"]
+           "ahbicht.condition_node_builder:ConditionNodeBuilder._build_requirement_constraint_nodes",
+           "ahbicht.condition_node_builder:ConditionNodeBuilder._build_hint_nodes",
+           "ahbicht.condition_node_builder:ConditionNodeBuilder.requirement_content_evaluation_for_all_condition_keys",
+           "ahbicht.expressions.format_constraint_expression_evaluation:_build_evaluated_format_constraint_nodes#body"]
 
 FRAME_MODULES = ["ahbicht.content_evaluation.rc_evaluators", "ahbicht.content_evaluation.fc_evaluators",
                  "ahbicht.expressions.hints_provider", "ahbicht.expressions.expression_resolver",
@@ -85,6 +88,57 @@ def frame_obligations(ctx: Ctx) -> None:
                    detail=f"{n_fn} functions of {len(FRAME_MODULES)} modules; {len(MODIFIES)} declared modifies entries")
 
 
+def inject_obligations(ctx: Ctx) -> None:
+    """second sentence of C12 (context-local evaluatable data): every function that needs EvaluatableData gets it from
+    the injector AT CALL TIME inside the coroutine that uses it (A-INJECT), i.e. (a) it is declared with
+    @inject.params(evaluatable_data=EvaluatableDataProvider), (b) no caller inside ahbicht passes the argument
+    explicitly unless it forwards its own injected parameter, (c) the data is never stored in an attribute or global"""
+    import ast
+    v = verifier()
+    t0 = time.time()
+    injected = {}
+    for name, mod in v.ex.repo.modules.items():
+        if not name.startswith("ahbicht"):
+            continue
+        for q, fn in functions_of(mod.tree, name).items():
+            for d in fn.decorator_list:
+                if isinstance(d, ast.Call) and ast.unparse(d.func) == "inject.params":
+                    for kw in d.keywords:
+                        if kw.arg == "evaluatable_data":
+                            injected[fn.name] = q
+    problems = []
+    for name, mod in v.ex.repo.modules.items():
+        if not name.startswith("ahbicht"):
+            continue
+        for q, fn in functions_of(mod.tree, name).items():
+            own = {a.arg for a in fn.args.args + fn.args.kwonlyargs}
+            for node in ast.walk(fn):
+                if isinstance(node, ast.Call):
+                    callee = node.func.attr if isinstance(node.func, ast.Attribute) else getattr(node.func, "id", None)
+                    if callee in injected:
+                        for kw in node.keywords:
+                            if kw.arg == "evaluatable_data" and not (isinstance(kw.value, ast.Name)
+                                                                     and kw.value.id == "evaluatable_data"
+                                                                     and "evaluatable_data" in own):
+                                problems.append(f"{q}: passes evaluatable_data={ast.unparse(kw.value)} to {callee}")
+                if isinstance(node, (ast.Assign, ast.AnnAssign)):
+                    tg = node.targets if isinstance(node, ast.Assign) else [node.target]
+                    val = getattr(node, "value", None)
+                    if val is not None and any(isinstance(n, ast.Name) and n.id == "evaluatable_data" for n in ast.walk(val)) \
+                            and any(isinstance(t, (ast.Attribute, ast.Subscript)) for t in tg):
+                        problems.append(f"{q}: stores evaluatable data in {ast.unparse(tg[0])}")
+                if isinstance(node, ast.Global):
+                    problems.append(f"{q}: global {', '.join(node.names)}")
+    expected = {"_build_hint_nodes", "_build_requirement_constraint_nodes", "_build_evaluated_format_constraint_nodes",
+                "_package_async"}
+    missing = sorted(expected - set(injected))
+    ok = not problems and not missing
+    ctx.obligation("inject/evaluatable-data-is-obtained-at-call-time-inside-the-using-coroutine",
+                   "discharged" if ok else "undecided", backend="syntactic call-site analysis", seconds=time.time() - t0,
+                   detail=f"injected functions: {sorted(injected.values())}; problems: {problems[:4]}; "
+                          f"expected but not injected any more: {missing}")
+
+
 def run(ctx: Ctx) -> None:
     ctx.explanation = (
         "PROVED relative to A-ASYNCIO (gather returns results in argument order whatever the completion order; tasks "
@@ -97,7 +151,14 @@ def run(ctx: Ctx) -> None:
         "event loop implements A-ASYNCIO, gather_if_necessary's index bookkeeping and the identity-based placeholder "
         "replacement - decided by the bounded adversarial schedules on the real loop.")
     ctx.trust("A-ASYNCIO (M1-M4)", "A-INJECT", "single evaluations are functions of the key (user code)",
-              "gather_if_necessary, _replace_sub_coroutines_with_awaited_results: bounded only")
+              "gather_if_necessary: bounded (length <= 4 symbolically + adversarial schedules); "
+              "_replace_sub_coroutines_with_awaited_results: bounded only")
     prove(ctx, TARGETS)
+    # own body of gather_if_necessary: every awaitability pattern of lists up to length 4 with symbolic contents.
+    # Bounded by length (labelled so): the obligations below are NOT part of an unbounded proof.
+    prove(ctx, ["ahbicht.utility_functions:gather_if_necessary#body"], kind="B (bounded by list length <= 4, symbolic contents)")
+    ctx.assume("gather_if_necessary#body obligations are bounded by list length <= 4 (all 31 awaitability patterns, "
+               "symbolic contents); they are not counted as an unbounded proof")
     frame_obligations(ctx)
+    inject_obligations(ctx)
     run_bounded(ctx, "C12")
